@@ -325,6 +325,16 @@ Proof.
     destruct (fhas (tkey t IFit) (sfiles st)); destruct otr, sfi; reflexivity.
 Qed.
 
+Lemma plan_preds_noow fl st t :
+  noow fl -> op_preds (plan_task true fl st t)
+             = filter (fun x => negb (item_eqb (snd x) IFit)) (missing fl t (sfiles st)).
+Proof.
+  intros [H1 H2]. destruct fl as [opd otr sfi ofi]. cbn in H1, H2. subst.
+  unfold plan_task, has, missing. cbn [ow_pred on_train save_fit ow_fit requested items3 flat_map].
+  destruct (fhas (tkey t ITrain) (sfiles st)); destruct (fhas (tkey t ITest) (sfiles st));
+    destruct (fhas (tkey t IFit) (sfiles st)); destruct otr, sfi; reflexivity.
+Qed.
+
 Lemma plan_items_sub hdd fl st t x :
   In x (op_items (plan_task hdd fl st t)) -> fst x = t /\ requested fl (snd x) = true.
 Proof.
